@@ -687,6 +687,13 @@ func (e *Exec) ghostCall(f *frame, in ssa.Instruction, fn *ssa.Function, args []
 		}
 		re := constant.StringVal(c.Value)
 		return B("(str.in_re " + args[0].T + " " + re + ")")
+	case "strMatchesGoRe":
+		// second argument: a constant Go regular expression (regexp.MatchString semantics), translated exactly
+		c, ok := in.(*ssa.Call).Call.Args[1].(*ssa.Const)
+		if !ok {
+			panic("strMatchesGoRe needs a constant regular expression")
+		}
+		return B("(str.in_re " + args[0].T + " " + goRegexToSMT(constant.StringVal(c.Value)) + ")")
 	case "fpFloor":
 		return B("(fp.roundToIntegral RTN " + args[0].T + ")")
 	case "ult":
